@@ -16,7 +16,7 @@ use tokio::fs::OpenOptions;
 use tokio::io::{AsyncReadExt, AsyncSeekExt, AsyncWriteExt, BufReader};
 use tracing::warn;
 
-use super::version_manager::EpochOp;
+use super::version_manager::{EpochOp, Version};
 use super::{SecondaryStorage, SecondaryTable, StorageResult, TracedStorageError};
 use crate::catalog::{ColumnCatalog, ColumnId, SchemaId, TableRefId};
 
@@ -301,6 +301,43 @@ impl SecondaryStorage {
     }
 
     pub(super) async fn drop_table_inner(&self, table_id: TableRefId) -> StorageResult<()> {
+        self.drop_tables_inner(&[table_id]).await
+    }
+
+    /// Drops all of `table_ids` in ONE manifest transaction: after a crash either every one of
+    /// them is gone or none is.
+    pub(super) async fn drop_tables_inner(&self, table_ids: &[TableRefId]) -> StorageResult<()> {
+        // refuse the whole request before anything is modified
+        {
+            let tables = self.tables.read();
+            for (i, table_id) in table_ids.iter().enumerate() {
+                if !tables.contains_key(table_id) || table_ids[..i].contains(table_id) {
+                    return Err(TracedStorageError::not_found("table", table_id.table_id));
+                }
+            }
+        }
+
+        let mut changeset = vec![];
+
+        let pin_version = self.version.pin();
+
+        for table_id in table_ids {
+            let mut changes = self.drop_table_changes(*table_id, &pin_version)?;
+            changeset.append(&mut changes);
+        }
+
+        // and then persist to manifest
+        self.version.commit_changes(changeset).await?;
+
+        Ok(())
+    }
+
+    /// Removes the table from the catalog and returns the manifest entries that retire it.
+    fn drop_table_changes(
+        &self,
+        table_id: TableRefId,
+        pin_version: &Version,
+    ) -> StorageResult<Vec<EpochOp>> {
         let mut changeset = vec![];
 
         let entry = DropTableEntry { table_id };
@@ -309,8 +346,6 @@ impl SecondaryStorage {
         self.apply_drop_table(&entry)?;
 
         changeset.push(EpochOp::DropTable(entry));
-
-        let pin_version = self.version.pin();
 
         if let Some(rowsets) = pin_version.snapshot.get_rowsets_of(table_id.table_id) {
             for rowset_id in rowsets {
@@ -335,9 +370,6 @@ impl SecondaryStorage {
             }
         }
 
-        // and then persist to manifest
-        self.version.commit_changes(changeset).await?;
-
-        Ok(())
+        Ok(changeset)
     }
 }
